@@ -59,12 +59,14 @@ MergeFits(t)     == ~HasMerge(t) \/ (t.m.r + t.m.rs - 1 <= t.nr /\ t.m.c + t.m.c
 
 \* what a reader of the output must see: the same nr x nc grid; the text of a merged cell
 \* at its anchor; positions covered by the merge are free (empty or a repeat - unspecified)
+\* t.off shifts the row number used in the cell texts, so that the tables of one document
+\* (off = 0, 3, 6) have different words
 GridCell(t, r, c) == IF Covered(t, r, c) THEN [free |-> TRUE, words |-> <<>>]
-                                         ELSE [free |-> FALSE, words |-> Words(t.kind[r][c], r, c)]
+                                         ELSE [free |-> FALSE, words |-> Words(t.kind[r][c], r + t.off, c)]
 Grid(t) == [r \in 1..t.nr |-> [c \in 1..t.nc |-> GridCell(t, r, c)]]
 
 \* the source cells with their texts and spans (covered positions are not cells)
-SrcCell(t, r, c) == [raw |-> Raw(t.kind[r][c], r, c), kind |-> t.kind[r][c], covered |-> Covered(t, r, c),
+SrcCell(t, r, c) == [raw |-> Raw(t.kind[r][c], r + t.off, c), kind |-> t.kind[r][c], covered |-> Covered(t, r, c),
                      rs |-> IF Anchor(t, r, c) THEN t.m.rs ELSE 1, cs |-> IF Anchor(t, r, c) THEN t.m.cs ELSE 1]
 Src(t) == [r \in 1..t.nr |-> [c \in 1..t.nc |-> SrcCell(t, r, c)]]
 
